@@ -469,6 +469,7 @@ pub fn run_case(mods: &mut Mods, c: &Value, seed: u64) -> Value {
         "chunk": gu(c, "chunk", 0),
         "nchunks": gu(c, "nchunks", 1),
         "alpha": c.get("alpha").cloned().unwrap_or(json!([])),
+        "chk": c.get("chk").cloned().unwrap_or(json!("full")),
     })
 }
 
@@ -560,5 +561,6 @@ pub fn run_encode_case(c: &Value, seed: u64) -> Value {
         "outs": outs, "frame": frame, "frame_bad": if frame { json!([]) } else { json!(["encode"]) },
         "did": gu(c, "did", 0), "chunk": gu(c, "chunk", 0), "nchunks": gu(c, "nchunks", 1),
         "alpha": c.get("alpha").cloned().unwrap_or(json!([])),
+        "chk": c.get("chk").cloned().unwrap_or(json!("full")),
     })
 }
